@@ -66,6 +66,7 @@ let () =
         | "getname" :: _ -> Some (OGetName (zi 1))
         | "getclass" :: _ -> Some (OGetClass (zi 1))
         | "sizeof" :: _ -> Some (OSizeof (zi 1, names_of (nth 2)))
+        | "fexist" :: _ -> Some (OFexist (zi 1, names_of (nth 2)))
         | "field" :: _ -> Some (OField (zi 1, zi 2))
         | "nfields" :: _ -> Some (ONFields (zi 1))
         | "blocksize" :: _ -> Some (OBlockSize (zi 1, zi 2))
